@@ -45,14 +45,33 @@ func ConfigNames() []string {
 }
 
 // Conformance replays the project's integration corpus (expectations the maintainers run against live PostgreSQL and
-// Neo4j) through both models. A mismatch is a bug of the model, i.e. a machinery failure (exit 2), never a verdict.
-func Conformance(run *core.Run) {
+// Neo4j) through both models. A mismatch of the reference evaluator is a bug of the model, i.e. a machinery failure
+// (exit 2), never a verdict.
+//
+// The SQL evaluator is fixed (it lives in /verif) and reproduces every expectation it models on the tree it was bound
+// to; if the SQL translated from the tree under check no longer yields a recorded result, the translation has changed
+// the result of that query. With decides (C01) that is a violation of the property; otherwise (C02 compares two
+// translations under the same evaluator) it is recorded and the check goes on.
+func Conformance(run *core.Run, decides bool) {
 	rep, err := pgconform.Run("")
 	if err != nil {
 		core.Fatalf("MODEL-CONFORMANCE: pgeval corpus run failed: %v", err)
 	}
 	if rep.Mismatch > 0 {
-		core.Fatalf("MODEL-CONFORMANCE: pgeval disagrees with %d recorded real-backend expectations (run /verif/bin/conform)", rep.Mismatch)
+		for _, o := range rep.Outcomes {
+			if o.Status != icorpus.StatusMismatch {
+				continue
+			}
+			if !decides {
+				run.Add("integration_expectations_not_reproduced_by_translated_sql", 1)
+				continue
+			}
+			run.Report(core.Violation{
+				Class:    "integration-expectation-not-reproduced:" + o.Name,
+				Summary:  fmt.Sprintf("%s: the translated SQL no longer returns the result recorded for the real backends in the integration corpus: %s (expected %s, got %v %s)", o.Cypher, o.Why, o.Expected, o.Got, o.Err),
+				Artefact: artefact{Query: o.Cypher, Detail: o.Name + ": " + o.Why + " expected " + o.Expected},
+			})
+		}
 	}
 	cases, err := icorpus.Load(icorpus.RepoRoot())
 	if err != nil {
